@@ -397,6 +397,9 @@ def classify_refusal(leaf, P):
     """-> 'type' | 'range' | 'content' | 'other'"""
     if not isinstance(leaf, Sym):
         return 'other'
+    if T.mentions(leaf, lambda t: t.op == 'id'):
+        # which object it is (and what was seen before), not what it holds
+        return 'content'
     if leaf.op in ('isinstance', 'isinstance_dyn'):
         return 'type'
     if leaf.op in ('is', 'isnot') and leaf.args[1] is None:
